@@ -551,14 +551,19 @@ def constant_size(st):
 
 def static_size(interp, st):
     """Size of a struct/bits whose layout is constant, else None (in its own unit)."""
-    ends = [0]
+    lo = hi = 0
     for f in st.fields:
         if f.is_virtual:
             continue
-        if f.cond is not None or f.start[0] != "n" or f.size[0] != "n":
+        if f.start[0] != "n" or f.size[0] != "n":
             return None
-        ends.append(f.start[1] + f.size[1])
-    return max(ends)
+        end = f.start[1] + f.size[1]
+        hi = max(hi, end)
+        if f.cond is None:
+            lo = max(lo, end)
+    # a conditional field that lies inside the extent of the unconditional ones does not
+    # change the size: the size is then the same constant whether or not it is present
+    return lo if lo == hi else None
 
 
 # ---------------------------------------------------------------------------
